@@ -6,6 +6,8 @@ import Uft.Model.Crash
    P <t> prepare | finish | ftrig
    P <t> emit <id> <size> <payload:0|1> <ok:0|1>            record_ret_stack for one record
    P <t> batch <id> <size> <payload> <extra|-1> <ok> …      record_trace_data
+   P <t> steps <batch…>                                      the same, answering with the sequence of distinct
+                                                             kill views (file of t if killed after each micro-step)
    P <t> write <id> <size> <payload> | bump | bump2 | end <id> <size> <payload> | pick <ok> | start | mark
          | lostadd <n> | drop <id> <size> <payload>             micro-steps
    K <t>                                                     kill
@@ -76,6 +78,57 @@ partial def parseBatch : List String → Option (List (Rec × Option Nat × Bool
       | none => none
     | _ => none
 
+/-- `emit`, keeping every intermediate state (same composition as Shmem.emit; the driver checks that the
+    final states agree) -/
+def emitTrace (cfg : Cfg) (s : State) (t : Tid) (r : Rec) (ok : Bool) : Option (List State × Bool) :=
+  let go (s : State) (acts : List Action) : Option (List State) :=
+    acts.foldl (fun acc a => match acc with
+      | none => none
+      | some l => match step cfg (l.getLastD s) a with
+        | some s' => some (l ++ [s'])
+        | none => none) (some [])
+  let bumps : List Action := [.pBump t] ++ (if r.payload && !cfg.fixed then [.pBump2 t] else [])
+  if fits cfg (s.prod t) r then (go s ([.pWrite t r] ++ bumps)).map (·, true)
+  else
+    match go s [.pEnd t r, .pPick t ok] with
+    | none => none
+    | some l =>
+      let s2 := l.getLastD s
+      if (s2.prod t).curr.isNone then some (l, false) else
+      match go s2 ([.pStart t, .pMark t] ++ bumps) with
+      | none => none
+      | some l2 => some (l ++ l2, true)
+
+/-- what `<t>.dat` would hold if thread `t` were killed now and the recorder shut down -/
+def killView (cfg : Cfg) (s : State) (t : Tid) : String :=
+  let s1 := match step cfg s (.kill t) with | some x => x | none => s
+  ",".intercalate (((Crash.shutdown cfg s1).file t).map showItem)
+
+def dedup : List String → List String
+  | a :: b :: l => if a = b then dedup (b :: l) else a :: dedup (b :: l)
+  | l => l
+
+partial def batchTrace (cfg : Cfg) (s : State) (t : Tid) :
+    List (Rec × Option Nat × Bool) → Option (List State × State)
+  | [] => some ([], s)
+  | (r, extra, ok) :: rest =>
+    match emitTrace cfg s t r ok with
+    | none => none
+    | some (l, stored) =>
+      let s1 := l.getLastD s
+      let continue_ (s1 : State) := match batchTrace cfg s1 t rest with
+        | some (l2, sf) => some (l ++ l2, sf)
+        | none => none
+      if stored then continue_ s1 else
+      match extra with
+      | none => continue_ s1
+      | some n =>
+        match step cfg s1 (.pLostAdd t n) with
+        | none => none
+        | some s2 =>
+          let sf := rest.foldl (fun acc x => match step cfg acc (.pDrop t x.1) with | some y => y | none => acc) s2
+          some (l ++ [s2, sf], sf)
+
 def act (st : St) (a : Action) : St × String :=
   match step st.cfg st.s a with
   | some s' => let st' := { st with s := s' }; (st', "ok " ++ showState st')
@@ -108,6 +161,17 @@ def handle (st : St) : List String → St × String
           match emitBatch st.cfg st.s t l with
           | some s' => let st' := { st with s := s' }; (st', "ok " ++ showState st')
           | none => (st, "disabled " ++ showState st)
+        | none => (st, "bad-op")
+      | "steps" :: ws =>
+        match parseBatch ws with
+        | some l =>
+          match batchTrace st.cfg st.s t l, emitBatch st.cfg st.s t l with
+          | some (states, sf), some sref =>
+            let st' := { st with s := sf }
+            let views := dedup ((st.s :: states).map fun x => "[" ++ killView st.cfg x t ++ "]")
+            let agree := showState st' == showState { st with s := sref }
+            (st', s!"ok STEPS agree={if agree then 1 else 0} views=" ++ "|".intercalate views)
+          | _, _ => (st, "disabled " ++ showState st)
         | none => (st, "bad-op")
       | "write" :: ws => match parseRec ws with
         | some (r, []) => act st (.pWrite t r)
